@@ -55,8 +55,8 @@ def build_and_dump(ctx):
 			[os.path.join(cbuild.CDIR, "drivers/mframe_trxcon_drv.c"),
 			 os.path.join(cbuild.TRXCON, "src/sched_mframe.c")],
 			includes = cbuild.trxcon_includes(bd), cflags = cbuild.GC[0], ldflags = cbuild.GC[1])
-		rc1, out1, err1 = cbuild.run(fw, timeout = 300)
-		rc2, out2, err2 = cbuild.run(tc, timeout = 300)
+		rc1, out1, err1 = cbuild.run_patient(fw, timeout = 120)
+		rc2, out2, err2 = cbuild.run_patient(tc, timeout = 120)
 	finally:
 		bd.remove()
 	for who, rc, err in (("firmware mframe_sched.c", rc1, err1), ("trxcon sched_mframe.c", rc2, err2)):
